@@ -186,3 +186,14 @@ Theorem C05_c_loop_is_the_regenerated_one : forall fuel c st sw bl vec,
   else (gen_final_code, st).
 Proof. exact write_loop_regen. Qed.
 Print Assumptions C05_c_loop_is_the_regenerated_one.
+
+(* digital_rf_get_global_sample (which index the next sample of a block description has) regenerated
+   from the C source with its unsigned 64-bit arithmetic (translator T12) equals the transcription the
+   model uses, on every input the writer can pass *)
+From DRF Require Import Base.U64 Model.IndexCalc Gen.GgsGen Proofs.GgsGenProofs.
+
+Theorem C05_get_global_sample_is_the_regenerated_code : forall sw bl, 0 <= sw -> Forall (row_ok sw) bl ->
+  (match bl with (_, d0) :: _ => d0 <= sw | [] => True end) ->
+  gen_get_global_sample sw bl = get_global_sample sw bl.
+Proof. exact get_global_sample_regen. Qed.
+Print Assumptions C05_get_global_sample_is_the_regenerated_code.
